@@ -210,7 +210,26 @@ pub fn run_c01(tier: &str) -> Report {
 
 // ---------------------------------------------------------------------------------------- C02
 
+/// fractions of the way from the centroid to a vertex / edge midpoint: a geometric ladder of
+/// distances from the boundary (1e-4 .. 0.5), so that any band wider than a factor ~1.5 is hit
+pub fn interior_fractions(dense: bool) -> Vec<f64> {
+    let mut f = vec![0.5, 0.9, 0.99, 0.999, 0.9999];
+    if dense {
+        for d in [0.7, 0.4, 0.3, 0.2, 0.15, 0.07, 0.05, 0.04, 0.03, 0.02, 0.015, 0.007, 0.005, 0.003, 0.002, 0.0015, 0.0007, 0.0005, 0.0003, 0.0002] {
+            f.push(1.0 - d);
+        }
+    } else {
+        for d in [0.3, 0.05, 0.03, 0.005] {
+            f.push(1.0 - d);
+        }
+    }
+    f
+}
+
 pub fn check_cell_c02(c: u64, interior: bool, st: &Stats, strict_pts: &AtomicU64) -> Vec<Viol> {
+    check_cell_c02_f(c, interior, st, strict_pts, false)
+}
+pub fn check_cell_c02_f(c: u64, interior: bool, st: &Stats, strict_pts: &AtomicU64, dense: bool) -> Vec<Viol> {
     let mut out = Vec::new();
     let res = rc::resolution(c).unwrap();
     st.evals.fetch_add(1, Ordering::Relaxed);
@@ -233,7 +252,7 @@ pub fn check_cell_c02(c: u64, interior: bool, st: &Stats, strict_pts: &AtomicU64
         Err(e) => return vec![viol("C02/pentagon-error", e, json!({"kind": "cell", "id": subj::hex(c)}))],
     };
     let diam = rg::diameter(&poly);
-    for q in geo::cell_interior_points(&poly, &[0.5, 0.9, 0.99, 0.999, 0.9999]) {
+    for q in geo::cell_interior_points(&poly, &interior_fractions(dense)) {
         let v = match subj::inverse(q, face) {
             Ok(v) => v,
             Err(_) => continue,
@@ -270,12 +289,12 @@ pub fn run_c02(tier: &str) -> Report {
     for r in 0..=rc_max {
         let cells = rc::all_cells(r);
         ncentres += cells.len() as u64;
-        let vs: Vec<Viol> = cells.par_iter().flat_map(|&c| check_cell_c02(c, r <= ri_max, &st, &strict)).collect();
+        let vs: Vec<Viol> = cells.par_iter().flat_map(|&c| check_cell_c02_f(c, r <= ri_max, &st, &strict, tier != "quick" && r <= 6)).collect();
         rep.sink.extend(vs);
     }
     let fam: Vec<u64> = en::fam(if tier == "quick" { 2 } else { 3 }, 29).into_iter().filter(|&c| rc::resolution(c).unwrap() > ri_max).collect();
     let fam: Vec<u64> = if tier == "quick" { fam.into_iter().step_by(5).collect() } else { fam };
-    let vs: Vec<Viol> = fam.par_iter().flat_map(|&c| check_cell_c02(c, true, &st, &strict)).collect();
+    let vs: Vec<Viol> = fam.par_iter().flat_map(|&c| check_cell_c02_f(c, true, &st, &strict, tier != "quick")).collect();
     rep.sink.extend(vs);
     let special = super::cells::special_cells(if tier == "quick" { 20 } else { 8 }, 29, tier != "quick");
     let vs: Vec<Viol> = special.par_iter().flat_map(|&c| check_cell_c02(c, true, &st, &strict)).collect();
